@@ -100,7 +100,7 @@ def writer_job(job):
 
         return [writer(i) for i in range(n)], finish
 
-    ex = IlvExplorer(make_execution, job["bound"], time_cap=job.get("time_cap", 1200),
+    ex = IlvExplorer(make_execution, job["bound"], time_cap=job.get("time_cap", 600),
                      shard=tuple(job["shard"]) if job.get("shard") else None).run()
     cleanup_dir()
     s = ex.summary()
@@ -250,7 +250,7 @@ def run_job(job):
         workload = make_workload(spec)
         sigspec = [{"stage": "G", "persistent": True, "name": "go", "data": {"n": 1}}]
         s = run_engine_scenario_with_signal(workload, skip, scripts, oracle, job["bound"], job.get("shard"), setup, sigspec,
-                                            job.get("time_cap", 1200), fault=job.get("fault"))
+                                            job.get("time_cap", 600), fault=job.get("fault"))
     viols, seen = [], set()
     for v in s.pop("_violations"):
         v["signature"] = f"e3:{v['sig']}@{job['scenario']}"
